@@ -1,5 +1,6 @@
 (* BottomUp.v (C03) — executable model of the bookkeeping of bottom-up inference
-   (no proofs in this file).  Faithful to the code as it is:
+   (no proofs in this file).  Faithful to the current tree (/repo HEAD; the pinned tree differed in
+   F3, repaired by commit f3ef4e3: NaN line scores no longer make the assignment raise):
 
    sleap_nn/inference/bottomup.py
      _generate_cms_peaks : peaks (grid cells, x = column, y = row) * cms_output_stride
@@ -23,6 +24,7 @@
    NaN (zero-List.length line, 0/0) is None. *)
 From Coq Require Import List ZArith QArith Qround Bool Arith String.
 From SV Require Import Base.Render.
+From SV Require C17.Toposort.          (* toposort_edges (model of C17), used QUALIFIED: no names imported *)
 Import ListNotations.
 Open Scope Q_scope.
 
@@ -182,17 +184,45 @@ Definition kp_decoded (g : geom) (p : Q * Q) : Q * Q :=
   let '(cx, cy) := kp_cell g p in
   (decode (g_cs g) (g_scale g) (g_eff g) (zq cx), decode (g_cs g) (g_scale g) (g_eff g) (zq cy)).
 
+Definition visl (a : list kp) : list bool :=
+  map (fun p => match p with Some _ => true | None => false end) a.
+
+(* one predicted instance: n_nodes slots; slot j holds the decoded keypoint when j is in the group,
+   None (NaN row) otherwise *)
+Definition inst_row (g : geom) (n : nat) (a : list kp) (grp : list nat) : list kp :=
+  map (fun j => if memb j grp
+                then match nth j a None with
+                     | Some p => Some (kp_decoded g p)
+                     | None => None
+                     end
+                else None) (seq 0 n).
+
+(* THE PROPERTY'S instances: one per (animal, group of >= 2 visible keypoints connected through visible
+   edges of the listing es) *)
 Definition expected_instances (g : geom) (n : nat) (es : list (nat * nat)) (animals : list (list kp))
   : list (list kp) :=
-  flat_map (fun a =>
-              let vis := map (fun p => match p with Some _ => true | None => false end) a in
-              map (fun grp => map (fun j => if memb j grp
-                                            then match nth j a None with
-                                                 | Some p => Some (kp_decoded g p)
-                                                 | None => None
-                                                 end
-                                            else None) (seq 0 n))
-                  (groups n es vis)) animals.
+  flat_map (fun a => map (inst_row g n a) (groups n es (visl a))) animals.
+
+(* ------------------------------------------------------------------ which edge types grouping uses *)
+(* PAFScorer groups with sorted_edge_inds = toposort_edges(edge_types) (C17: bfs_edges from the first
+   topological root).  Edge type k is PROCESSED by assign_connections_to_instances iff k is in that
+   tuple; the candidates of the other edge types are scored and matched but never assembled.  For a
+   rooted tree listed parent -> child (C17's `arborescence`) every edge type is processed
+   (Lemmas.v: processed_all); for a tree with a mis-oriented edge, e.g. [(0,1);(2,1)], it is not. *)
+Definition processed (es : list (nat * nat)) (k : nat) : bool :=
+  match C17.Toposort.toposort es with
+  | Some out => memb k out
+  | None => false                     (* networkx raises (cycle): outside every domain *)
+  end.
+
+Definition processed_edges (es : list (nat * nat)) : list (nat * nat) :=
+  map snd (filter (fun ke => processed es (fst ke)) (combine (seq 0 (List.length es)) es)).
+
+(* what forward returns for ANY edge listing (the harness evaluates THIS on every scene, also on
+   trees with a mis-oriented edge): the property's instances over the processed edge types *)
+Definition forward_instances (g : geom) (n : nat) (es : list (nat * nat)) (animals : list (list kp))
+  : list (list kp) :=
+  expected_instances g n (processed_edges es) animals.
 
 (* selectors on a scene (mirrored in harness/props/c03.py) *)
 Definition kp_tie (g : geom) (p : Q * Q) : bool :=
@@ -220,15 +250,34 @@ Definition any_kp (f : Q * Q -> bool) (animals : list (list kp)) : bool :=
 (* ------------------------------------------------------------------ premise (alternative 1), decidable *)
 (* a score table of one edge type: rows = source peaks, columns = destination peaks,
    each tagged with the animal it belongs to; None = NaN *)
+(* the table is rectangular: one row per source peak, one entry per destination peak
+   (`combine` below would silently truncate a ragged table) *)
+Definition table_wf (src_ids dst_ids : list nat) (tab : list (list (option Q))) : bool :=
+  (List.length tab =? List.length src_ids)%nat
+  && forallb (fun row : list (option Q) => (List.length row =? List.length dst_ids)%nat) tab.
+
 Definition table_alt1 (src_ids dst_ids : list nat) (tab : list (list (option Q))) (mls : Q) : bool :=
   let n_true := List.length (filter (fun s => memb s dst_ids) src_ids) in
-  forallb (fun '(s, row) =>
+  table_wf src_ids dst_ids tab
+  && forallb (fun '(s, row) =>
              forallb (fun '(d, x) =>
                         match x with
                         | None => false
                         | Some v => if (s =? d)%nat then Qle_bool mls v else negb (Qle_bool mls v)
                         end) (combine dst_ids row)) (combine src_ids tab)
   && (n_true =? Nat.min (List.length src_ids) (List.length dst_ids))%nat.
+
+(* the score the table holds for (source peak of animal a, destination peak of animal b) *)
+Fixpoint lookup {A : Type} (x : nat) (keys : list nat) (vals : list A) : option A :=
+  match keys, vals with
+  | k :: ks, v :: vs => if (x =? k)%nat then Some v else lookup x ks vs
+  | _, _ => None
+  end.
+Definition tab_score (src_ids dst_ids : list nat) (tab : list (list (option Q))) (a b : nat) : option Q :=
+  match lookup a src_ids tab with
+  | Some row => match lookup b dst_ids row with Some x => x | None => None end
+  | None => None
+  end.
 
 (* ------------------------------------------------------------------ harness interface *)
 Inductive res := RB (b : bool) | RZ (z : Z) | RQ (q : Q) | RNone | RL (l : list res).
@@ -270,6 +319,9 @@ Definition run (c : case) : res :=
       RL [RB (any_kp (kp_tie g) animals);
           RB (any_kp (kp_band g) animals);
           RB (existsb (animal_coincident g es) animals);
+          RL (map (fun inst => RL (map res_kp inst)) (forward_instances g n es animals));
+          RB (C17.Toposort.is_tree es);
+          RL (map (fun k => RB (processed es k)) (seq 0 (List.length es)));
           RL (map (fun inst => RL (map res_kp inst)) (expected_instances g n es animals))]
   | CScore paf sx sy dx dy k ps n M wt taus =>
       let h := Z.of_nat (List.length paf) in
